@@ -176,6 +176,23 @@ Theorem C03_log_exp_general : forall (u : V3 R) (th : R),
 Proof. intros. apply logexp_so3_general; assumption. Qed.
 Print Assumptions C03_log_exp_general.
 
+(* ... and on EVERY non-identity branch (so also inside the half-turn band) *)
+Theorem C03_log_exp_SO3 : forall (u : V3 R) (th : R),
+  normsq3 Rops u = 1 -> 0 < th < PI -> thv Rops (k_unit C03_thr) < th ->
+  trlog_so3_branch Rops C03_thr (rodrigues_th Rops u th) <> BrEye ->
+  trlog_so3_tw Rops C03_thr (rodrigues_th Rops u th) = vscale3 Rops th u.
+Proof. intros. apply logexp_SO3; auto. exact (proj1 C03_thr_ok2). Qed.
+Print Assumptions C03_log_exp_SO3.
+
+(* ---- (2) SE(3): exp(log T) = T for every T in SE(3) whose rotation is outside the identity band, with rotation angle
+        above the exponential's unit threshold and below pi (at theta = pi exactly, 1/tan(pi/2) is 1/0 over R) ---- *)
+Theorem C03_exp_log_SE3 : forall Tm : M44 R,
+  SE3 Tm -> trlog_se3_branch Rops C03_thr Tm = BrRot ->
+  thv Rops (k_unit C03_thr) < log_theta Rops (t2r3 Tm) -> log_theta Rops (t2r3 Tm) < PI ->
+  trexp_se3 Rops C03_thr (trlog_se3_tw Rops C03_thr Tm) = Ok Tm.
+Proof. intros. apply explog_SE3; auto. exact (proj1 C03_thr_ok2). Qed.
+Print Assumptions C03_exp_log_SE3.
+
 (* ---- (2) translation part: V(theta)/theta . Ginv(theta) = I for a unit axis and 0 < theta < pi
         (V/theta is what trexp applies to v = Ginv t after unittwist_norm divides the twist by theta) ---- *)
 Theorem C03_V_Ginv_inverse : forall (u : V3 R) (th : R), normsq3 Rops u = 1 -> 0 < th < PI ->
@@ -241,13 +258,12 @@ Theorem C03_bridge_trexp_se3_th : forall (tw : V6 R) (th : R),
 Proof. intros. destruct_tuples. gen_simpl. tuple_eq ltac:(ring). Qed.
 Print Assumptions C03_bridge_trexp_se3_th.
 
-(* every special band of the code (zero / TypeError band of rodrigues, identity band and half-turn band of trlog) lies
-   outside the magnitudes on which the property demands the general formulas: |w| >= 1e-12 for exp, and
-   pi - theta >= 1e-6 for log(exp S) = S, where |tr + 1| = 4 sin^2((pi-theta)/2) >= 4 (1e-6/pi)^2 > 4e-13
-   (the trigonometric step is elementary and not formalised; the inequality on the regenerated constants is). *)
+(* every band in which the code does NOT use the general formulas exactly (zero / TypeError band of rodrigues, identity
+   band of trlog) lies below the magnitudes on which the property demands them: |w| >= 1e-12.  The half-turn band needs no
+   such bound any more: since fix 84bd1d7 both round trips are exact on it (C03_exp_log_halfturn, C03_log_exp_SO3). *)
 Theorem C03_thresholds_below_property_bands :
   thv Rops (k_unit C03_thr) < 1/1000000000000 /\ thv Rops (k_zero C03_thr) < 1/1000000000000 /\
-  thv Rops (k_eye C03_thr) < 1/1000000000000 /\ thv Rops (k_half C03_thr) < 4/10000000000000.
+  thv Rops (k_eye C03_thr) < 1/1000000000000.
 Proof. unfold thv, C03_thr. cbn. repeat split; lra. Qed.
 Print Assumptions C03_thresholds_below_property_bands.
 
